@@ -113,6 +113,17 @@ func C16Handler(cases []C16Case, yield func(string)) http.Handler {
 			byEUI[lorawan.EUI64(c.DevEUI)] = c
 		}
 	}
+	// the operator's KEK store: one slice per label, handed out by reference on
+	// every lookup (as a map-backed store does); the judge keeps its own copies
+	store := map[string][]byte{}
+	for _, c := range cases {
+		if c.NSKEK != nil {
+			store[hex.EncodeToString(c.NetID[:])] = append([]byte(nil), c.NSKEK...)
+		}
+		if c.ASKEK != nil {
+			store["as-"+hex.EncodeToString(c.DevEUI[:])] = append([]byte(nil), c.ASKEK...)
+		}
+	}
 	h, err := joinserver.NewHandler(joinserver.HandlerConfig{
 		GetDeviceKeysByDevEUIFunc: func(devEUI lorawan.EUI64) (joinserver.DeviceKeys, error) {
 			y("GetDeviceKeys")
@@ -124,15 +135,7 @@ func C16Handler(cases []C16Case, yield func(string)) http.Handler {
 		},
 		GetKEKByLabelFunc: func(label string) ([]byte, error) {
 			y("GetKEK")
-			for _, c := range cases {
-				if label == hex.EncodeToString(c.NetID[:]) && c.NSKEK != nil {
-					return c.NSKEK, nil
-				}
-				if label == "as-"+hex.EncodeToString(c.DevEUI[:]) && c.ASKEK != nil {
-					return c.ASKEK, nil
-				}
-			}
-			return nil, nil
+			return store[label], nil
 		},
 		GetASKEKLabelByDevEUIFunc: func(devEUI lorawan.EUI64) (string, error) {
 			y("GetASKEKLabel")
@@ -458,9 +461,25 @@ func runC16(r *engine.Run) {
 			l++
 		}
 		var current C16Case
+		nsKEK, asKEK := bytes.Repeat([]byte{0x5A}, 16), bytes.Repeat([]byte{0xC3}, 16)
+		store := map[string][]byte{} // handed out by reference on every lookup
 		h, err := joinserver.NewHandler(joinserver.HandlerConfig{
 			GetDeviceKeysByDevEUIFunc: func(devEUI lorawan.EUI64) (joinserver.DeviceKeys, error) {
 				return joinserver.DeviceKeys{DevEUI: devEUI, NwkKey: keyOf(current.NwkKey), AppKey: keyOf(current.AppKey), JoinNonce: current.JoinNonce}, nil
+			},
+			GetKEKByLabelFunc: func(label string) ([]byte, error) {
+				if _, ok := store[label]; !ok {
+					switch {
+					case strings.HasPrefix(label, "as-"):
+						store[label] = append([]byte(nil), asKEK...)
+					default:
+						store[label] = append([]byte(nil), nsKEK...)
+					}
+				}
+				return store[label], nil
+			},
+			GetASKEKLabelByDevEUIFunc: func(devEUI lorawan.EUI64) (string, error) {
+				return "as-" + hex.EncodeToString(devEUI[:]), nil
 			},
 		})
 		if err != nil {
@@ -476,6 +495,7 @@ func runC16(r *engine.Run) {
 			if st.optNeg {
 				k.DL |= 0x80
 			}
+			k.NSKEK, k.ASKEK = append([]byte(nil), nsKEK...), append([]byte(nil), asKEK...)
 			current = k
 			judge(c, k, h)
 		}
